@@ -136,6 +136,8 @@ def reserved_edits():
                 out.add(w[:i] + c + w[i:])
         for i in range(len(w)):
             out.add(w[:i] + w[i + 1:])
+        for suffix in (".toml", ".sbom", ".toml.bak", ".sbom.cdx.json", "s.toml", "/toml", "-toml", ".TOML"):
+            out.add(w + suffix)
         for w2 in RESERVED:
             out.add(w + w2)
             out.add(w + "/" + w2)
@@ -184,6 +186,10 @@ def version_structured():
             out.add("3." + a + "." + b)
             out.add(a + "." + b + "." + a)
             out.add(a + "." + b + ".3.4")
+    for tail in comps + ["rc1", "04", "+4", "x", " "]:
+        out.add("1.2.3." + tail)
+        out.add("0.0.0." + tail)
+        out.add("1.2." + tail + ".3")
     out.update(["1.2.3\n", "\n1.2.3", " 1.2.3", "1.2.3 ", "1..3", ".1.2", "1.2.", "...", "..", ".", "1.2.3-rc1", "1.2.3+build", "v1.2.3",
                 "0.10", "0.9", "1.0", "0.10.0", "2", "2.", ".2"])
     return sorted(out)
